@@ -209,6 +209,7 @@ fn dispatch(a: &Args, tr: &mut out::Trace) {
         "maplist-str" => ord_main::<MapList<OKey, String>>(a, tr),
         "settree-i32" => ord_main::<SetTree<OKey, PV<i32>>>(a, tr),
         "settree-str" => ord_main::<SetTree<OKey, PV<String>>>(a, tr),
+        "settree-plain" => ord_main::<SetTree<i32, i32>>(a, tr),
         "setlist-i32" => ord_main::<SetList<PV<i32>>>(a, tr),
         "setlist-str" => ord_main::<SetList<PV<String>>>(a, tr),
         "seg-i32" if a.driver == "matrix" => seg::run_matrix(tr, a.num("from", 0), a.num("to", 528)),
